@@ -57,8 +57,12 @@ def isTracked (sch : Schema) (c : Nat) : Bool :=
   | .autoCreate => true | .autoUpdate => true | _ => false
 
 /-- soft_delete.go QueryClauses/UpdateClauses: `deleted_at IS NULL` -/
-def visible (sch : Schema) (r : Row) : Bool :=
-  (List.range sch.ncols).all (fun c => match sch.kind c with | .softDelete => r c == 0 | _ => true)
+def liveCol (sch : Schema) (r : Row) (c : Nat) : Bool :=
+  match sch.kind c with
+  | .softDelete => r c == 0
+  | _ => true
+
+def visible (sch : Schema) (r : Row) : Bool := (List.range sch.ncols).all (liveCol sch r)
 
 /-! ### callbacks/create.go ConvertToCreateValues, struct branch -/
 
